@@ -820,6 +820,10 @@ def check(ctx):
     check_compile_expr(ctx, nts)
     check_exec(ctx)
     check_selectors(ctx)
+    # where expressions are used (count / until / when of repeated and optional fields): the
+    # consumer gets the callable compile_expr_into_callable made, not a wrapper that coerces
+    from .c08 import check_normalisers
+    check_normalisers(ctx)
     # a field object used as a plain value (an option of chooses) is told from a named field by
     # hasattr(field, 'field_name'): no constructor may create that attribute
     bad = []
